@@ -369,7 +369,58 @@ def tpl_weights(ctx, rule="R03.6"):
     ctx.check([ast.unparse(s.value) for s in lu.body if isinstance(s, ast.Return)] == ["self.len_low + self.len_scale"], rule, TPL + "::TPLCovModel.len_up", "upper truncation = len_low + len_scale", "len-up")
 
 
+def gamma_recurrence(ctx, rule="R03.7"):
+    """Incomplete gamma functions of negative order are reached by the downward recurrence
+         Gamma(t, x) = (Gamma(t + 1, x) - x**t e**-x) / t          gamma(t, x) = (gamma(t + 1, x) + x**t e**-x) / t
+    Every step - recursive call or loop iteration - must use ONE order t in all three places (exponent, divisor, successor)."""
+    prog = ctx.prog
+    total = 0
+    for name, sign in (("inc_gamma", -1), ("inc_gamma_low", 1)):
+        fn = prog.func(SPECIAL, name)
+        site = "%s::%s" % (SPECIAL, name)
+        parents = {}
+        for p in ast.walk(fn):
+            for c in ast.iter_child_nodes(p):
+                parents[c] = p
+        steps = []
+        for n in ast.walk(fn):
+            if isinstance(n, ast.BinOp) and isinstance(n.op, ast.Div):
+                ts = terms(n.left)
+                if len(ts) != 2:
+                    continue
+                corr = [(sg, t) for sg, t in ts if any(isinstance(c, ast.Call) and ast.unparse(c.func) == "np.exp" for c in ast.walk(t)) and any(isinstance(c, ast.BinOp) and isinstance(c.op, ast.Pow) for c in ast.walk(t))]
+                prev = [(sg, t) for sg, t in ts if (sg, t) not in corr]
+                if len(corr) == 1 and len(prev) == 1:
+                    steps.append((n, prev[0], corr[0]))
+        if not steps:
+            raise AnalysisError("anchor vanished: recurrence step (G(t+1) -/+ x**t exp(-x)) / t in %s" % name)
+        for n, (psg, prev), (csg, corr) in steps:
+            total += 1
+            d = ast.unparse(n.right)
+            pows = [c for c in ast.walk(corr) if isinstance(c, ast.BinOp) and isinstance(c.op, ast.Pow)]
+            exps = [c for c in ast.walk(corr) if isinstance(c, ast.Call) and ast.unparse(c.func) == "np.exp"]
+            e = ast.unparse(pows[0].right) if len(pows) == 1 else "?"
+            base = ast.unparse(pows[0].left) if len(pows) == 1 else "?"
+            ok_corr = len(pows) == 1 and len(exps) == 1 and ast.unparse(exps[0].args[0]) == "-%s" % base and csg == sign and psg == 1
+            ctx.check(ok_corr, rule, site, "recurrence step `%s`: previous value %s %s**t * exp(-%s)" % (ast.unparse(n)[:90], "-" if sign < 0 else "+", base, base), "step-shape:" + d)
+            ctx.check(e == d, rule, site, "recurrence step `%s`: exponent (%s) and divisor (%s) are the same order t" % (ast.unparse(n)[:90], e, d), "step-order:%s/%s" % (e, d))
+            if isinstance(prev, ast.Call) and getattr(prev.func, "id", "") == name:
+                a0 = ast.unparse(prev.args[0]) if prev.args else "?"
+                ctx.check(a0 in ("%s + 1" % d, "1 + %s" % d), rule, site, "the step for order %s builds on the value for order %s + 1 (got %s)" % (d, d, a0), "step-successor:" + a0)
+            elif isinstance(prev, ast.Name):
+                loop = parents.get(n)
+                while loop is not None and not isinstance(loop, ast.For):
+                    loop = parents.get(loop)
+                ok_loop = loop is not None and ast.unparse(loop.target) == d
+                ctx.check(ok_loop, rule, site, "loop form: the order used in the step (%s) is the loop variable (%s)" % (d, ast.unparse(loop.target) if loop is not None else "no loop"), "step-loopvar:" + d)
+                ctx.note(rule, "%s uses a loop for the recurrence: the descending order of the loop values and the start value are not decided" % site)
+            else:
+                ctx.undecided(rule, site, "previous value of the recurrence is neither a recursive call nor a loop-carried name: %s" % ast.unparse(prev)[:60])
+    ctx.floor(rule, "recurrence steps analysed", total, 2)
+
+
 def run(ctx):
+    gamma_recurrence(ctx)
     derivation_closure(ctx)
     variant_siblings(ctx)
     unit_obligations(ctx)
